@@ -8,7 +8,8 @@ use crate::bridge::{self, BuildErr};
 use crate::guard;
 use crate::libcodec::*;
 use crate::refcodec as rc;
-use crate::report::{Ctx, Report, Violation};
+use crate::report::{run_cases, Ctx, Report, Violation};
+use crate::rng::Rng;
 use serde_json::json;
 
 fn legal_value(id: u8) -> PVal {
@@ -83,9 +84,109 @@ fn carrier(loc: Loc, props: Vec<Prop>, auth_has_method: bool) -> Pkt {
     }
 }
 
+/// build the carrier through the public builders and parse its reference encoding; both verdicts against `want`
+fn judge(rep: &mut Report, a: &Pkt, cell: &str, want: bool, attrs: &str, case: (u64, u64)) {
+    rep.evaluations += 1;
+    rep.distinct_case(cell.as_bytes());
+    if want {
+        rep.count("cells_expected_accept");
+    } else {
+        rep.count("cells_expected_reject");
+    }
+    // ---- builder path
+    rep.hit("T1-builder-acceptance-equals-spec-table");
+    let b = guard::call(|| bridge::to_lib::<u16>(a));
+    let builder_accepts: Option<bool> = match &b {
+        Err(pn) => {
+            rep.violate(Violation { property: "C18".into(), rule: "panic".into(), signature: format!("C18.panic@path=builder;{}", attrs), what: format!("builder path panicked for {}: {}", cell, pn.message), witness: json!({"cell": cell}), case });
+            None
+        }
+        Ok(Ok(_)) => Some(true),
+        Ok(Err(BuildErr::Lib(_))) => Some(false),
+        Ok(Err(BuildErr::Inexpressible(_))) => {
+            rep.count("builder_cells_inexpressible");
+            None
+        }
+    };
+    if let Some(acc) = builder_accepts {
+        if acc != want {
+            rep.violate(Violation {
+                property: "C18".into(),
+                rule: "T1-builder-acceptance-equals-spec-table".into(),
+                signature: format!("C18.T1-builder@{};accepts={}", attrs, acc),
+                what: format!("builder {} {} but the specification table says {}", if acc { "accepts" } else { "rejects" }, cell, if want { "allowed" } else { "not allowed" }),
+                witness: json!({"cell": cell, "packet": a, "builder_result": format!("{:?}", b.as_ref().map(|r| r.as_ref().map(|_| "ok").map_err(|e| format!("{:?}", e))).map_err(|p| p.message.clone()))}),
+                case,
+            });
+        }
+    }
+    // ---- parser path
+    rep.hit("T2-parser-acceptance-equals-spec-table");
+    let frame = rc::encode(a, 2);
+    let pr = guard::call(|| lib_parse_frame::<u16>(&frame, Ver::V5));
+    let parser_accepts = match &pr {
+        Err(pn) => {
+            rep.violate(Violation { property: "C18".into(), rule: "panic".into(), signature: format!("C18.panic@path=parser;{}", attrs), what: format!("parser path panicked for {}: {}", cell, pn.message), witness: json!({"cell": cell}), case });
+            None
+        }
+        Ok(Ok(_)) => Some(true),
+        Ok(Err(_)) => Some(false),
+    };
+    if let Some(acc) = parser_accepts {
+        if acc != want {
+            rep.violate(Violation {
+                property: "C18".into(),
+                rule: "T2-parser-acceptance-equals-spec-table".into(),
+                signature: format!("C18.T2-parser@{};accepts={}", attrs, acc),
+                what: format!("parser {} {} but the specification table says {}", if acc { "accepts" } else { "rejects" }, cell, if want { "allowed" } else { "not allowed" }),
+                witness: json!({"cell": cell, "packet": a, "frame_hex": frame.iter().map(|b| format!("{:02x}", b)).collect::<String>(), "parser_result": format!("{:?}", pr.as_ref().map(|r| r.as_ref().map(|_| "ok").map_err(|e| format!("{:?}", e))).map_err(|p| p.message.clone()))}),
+                case,
+            });
+        }
+    }
+    if let (Some(b), Some(p)) = (builder_accepts, parser_accepts) {
+        rep.hit("T3-builder-and-parser-agree");
+        if b != p {
+            rep.count("builder_parser_disagreements");
+        }
+    }
+    if rep.samples.len() < 5 && (rep.evaluations % 211 == 0) {
+        rep.sample(json!({"cell": cell, "expected_accept": want, "builder_accepts": builder_accepts, "parser_accepts": parser_accepts, "carrier": a.short()}), 5);
+    }
+}
+
+/// Authentication Data needs an Authentication Method next to it (spec 3.1.2.11.10 / 3.15.2.2.3); an AUTH carrier
+/// with reason 0x18 needs the method as well. Returns (props, auth_has_method).
+fn with_auth_method(loc: Loc, mut props: Vec<Prop>) -> (Vec<Prop>, bool) {
+    let has21 = props.iter().any(|p| p.id == 21);
+    let has22 = props.iter().any(|p| p.id == 22);
+    let mut auth_has_method = false;
+    if matches!(loc, Loc::Auth) {
+        if !has21 {
+            props.insert(0, Prop { id: 21, val: PVal::Str(b"m".to_vec()) });
+        }
+        auth_has_method = props.iter().filter(|p| p.id == 21).count() == 1;
+    } else if has22 && !has21 && matches!(loc, Loc::Connect | Loc::Connack) {
+        props.insert(0, Prop { id: 21, val: PVal::Str(b"m".to_vec()) });
+    }
+    (props, auth_has_method)
+}
+/// the specification's verdict on a whole property list at a location
+fn list_allowed(loc: Loc, props: &[Prop]) -> bool {
+    for p in props {
+        if !prop_allowed(p.id, loc) || !prop_value_ok(p) {
+            return false;
+        }
+        if !prop_repeatable(p.id, loc) && props.iter().filter(|q| q.id == p.id).count() > 1 {
+            return false;
+        }
+    }
+    true
+}
+
 pub fn run(ctx: &Ctx) -> Report {
     let mut rep = Report::new(
-        "exhaustive table: 27 property ids x 14 property-carrying locations (incl. will) x occurrence count {1,2} x value classes (legal, boundary, each forbidden value), each placed in a minimal valid carrier packet; expected acceptance from MQTT 5.0 Table 2-4 (Appendix C of DESIGN.md); builder path and parser path both judged and compared with each other. distinct = distinct cells",
+        "exhaustive table: 27 property ids x 14 property-carrying locations (incl. will) x occurrence count {1,2} x value classes (legal, boundary, each forbidden value), each placed in a minimal valid carrier packet; plus every ordered pair of distinct property ids x 14 locations in the lists [A,B], [A,B,B], [B,A,B], [B,B,A] (a multiplicity or placement error must be found next to any other property), plus seeded random property lists of up to 6 entries; expected acceptance from MQTT 5.0 Table 2-4 (Appendix C of DESIGN.md); builder path and parser path both judged and compared with each other. distinct = distinct cells",
     );
     rep.exhaustive = true;
     let case = (1u64, 0u64);
@@ -97,110 +198,94 @@ pub fn run(ctx: &Ctx) -> Report {
                         continue;
                     }
                     let p = Prop { id: *id, val: val.clone() };
-                    let mut props: Vec<Prop> = (0..count).map(|_| p.clone()).collect();
-                    // Authentication Data needs an Authentication Method next to it (spec 3.1.2.11.10 / 3.15.2.2.3)
-                    let mut auth_has_method = false;
-                    if matches!(loc, Loc::Auth) && *id != 21 {
-                        props.insert(0, Prop { id: 21, val: PVal::Str(b"m".to_vec()) });
-                        auth_has_method = true;
-                    } else if *id == 22 && matches!(loc, Loc::Connect | Loc::Connack) {
-                        props.insert(0, Prop { id: 21, val: PVal::Str(b"m".to_vec()) });
-                    }
+                    let props: Vec<Prop> = (0..count).map(|_| p.clone()).collect();
                     let want = prop_allowed(*id, loc) && (count == 1 || prop_repeatable(*id, loc)) && prop_value_ok(&p);
+                    let (props, auth_has_method) = if *id == 21 { (props, false) } else { with_auth_method(loc, props) };
                     let a = carrier(loc, props, auth_has_method);
                     let cell = format!("{}({}) in {:?} x{} value={}", name, id, loc, count, vname);
-                    rep.evaluations += 1;
-                    rep.distinct_case(cell.as_bytes());
-                    if want {
-                        rep.count("cells_expected_accept");
-                    } else {
-                        rep.count("cells_expected_reject");
-                    }
-                    // ---- builder path
-                    rep.hit("T1-builder-acceptance-equals-spec-table");
-                    let b = guard::call(|| bridge::to_lib::<u16>(&a));
-                    let builder_accepts: Option<bool> = match &b {
-                        Err(pn) => {
-                            rep.violate(Violation {
-                                property: "C18".into(),
-                                rule: "panic".into(),
-                                signature: format!("C18.panic@path=builder;prop={};loc={:?}", id, loc),
-                                what: format!("builder path panicked for {}: {}", cell, pn.message),
-                                witness: json!({"cell": cell}),
-                                case,
-                            });
-                            None
-                        }
-                        Ok(Ok(_)) => Some(true),
-                        Ok(Err(BuildErr::Lib(_))) => Some(false),
-                        Ok(Err(BuildErr::Inexpressible(_))) => {
-                            rep.count("builder_cells_inexpressible");
-                            None
-                        }
-                    };
-                    if let Some(acc) = builder_accepts {
-                        if acc != want {
-                            rep.violate(Violation {
-                                property: "C18".into(),
-                                rule: "T1-builder-acceptance-equals-spec-table".into(),
-                                signature: format!("C18.T1-builder@prop={};loc={:?};count={};value={};accepts={}", id, loc, count, vname, acc),
-                                what: format!("builder {} {} but the specification table says {}", if acc { "accepts" } else { "rejects" }, cell, if want { "allowed" } else { "not allowed" }),
-                                witness: json!({"cell": cell, "packet": a, "builder_result": format!("{:?}", b.as_ref().map(|r| r.as_ref().map(|_| "ok").map_err(|e| format!("{:?}", e))).map_err(|p| p.message.clone()))}),
-                                case,
-                            });
-                        }
-                    }
-                    // ---- parser path
-                    rep.hit("T2-parser-acceptance-equals-spec-table");
-                    let frame = rc::encode(&a, 2);
-                    let pr = guard::call(|| lib_parse_frame::<u16>(&frame, Ver::V5));
-                    let parser_accepts = match &pr {
-                        Err(pn) => {
-                            rep.violate(Violation {
-                                property: "C18".into(),
-                                rule: "panic".into(),
-                                signature: format!("C18.panic@path=parser;prop={};loc={:?}", id, loc),
-                                what: format!("parser path panicked for {}: {}", cell, pn.message),
-                                witness: json!({"cell": cell}),
-                                case,
-                            });
-                            None
-                        }
-                        Ok(Ok(_)) => Some(true),
-                        Ok(Err(_)) => Some(false),
-                    };
-                    if let Some(acc) = parser_accepts {
-                        if acc != want {
-                            rep.violate(Violation {
-                                property: "C18".into(),
-                                rule: "T2-parser-acceptance-equals-spec-table".into(),
-                                signature: format!("C18.T2-parser@prop={};loc={:?};count={};value={};accepts={}", id, loc, count, vname, acc),
-                                what: format!("parser {} {} but the specification table says {}", if acc { "accepts" } else { "rejects" }, cell, if want { "allowed" } else { "not allowed" }),
-                                witness: json!({"cell": cell, "packet": a, "frame_hex": frame.iter().map(|b| format!("{:02x}", b)).collect::<String>(), "parser_result": format!("{:?}", pr.as_ref().map(|r| r.as_ref().map(|_| "ok").map_err(|e| format!("{:?}", e))).map_err(|p| p.message.clone()))}),
-                                case,
-                            });
-                        }
-                    }
-                    if let (Some(b), Some(p)) = (builder_accepts, parser_accepts) {
-                        rep.hit("T3-builder-and-parser-agree");
-                        if b != p && b == want {
-                            // (when both differ from the table the two T1/T2 reports already say so)
-                        }
-                        if b != p {
-                            rep.count("builder_parser_disagreements");
-                        }
-                    }
-                    if rep.samples.len() < 5 && (rep.evaluations % 211 == 0) {
-                        rep.sample(json!({"cell": cell, "expected_accept": want, "builder_accepts": builder_accepts, "parser_accepts": parser_accepts, "carrier": a.short()}), 5);
-                    }
+                    judge(&mut rep, &a, &cell, want, &format!("prop={};loc={:?};count={};value={}", id, loc, count, vname), case);
                 }
             }
         }
     }
+    // ---- pairs: the verdict on B (placement, multiplicity) must not depend on which other property stands next to it
+    for (ia, _, na) in PROP_TABLE.iter() {
+        for (ib, _, nb) in PROP_TABLE.iter() {
+            if ia == ib {
+                continue;
+            }
+            for loc in ALL_LOCS {
+                // A is a legal companion at this location; B is the property under test
+                if !prop_allowed(*ia, loc) {
+                    continue;
+                }
+                // (the authentication pair has its own cross rule, handled by with_auth_method in the single cells)
+                if matches!((*ia, *ib), (21, 22) | (22, 21)) {
+                    continue;
+                }
+                let a = Prop { id: *ia, val: legal_value(*ia) };
+                let b = Prop { id: *ib, val: legal_value(*ib) };
+                let shapes: [(&str, Vec<Prop>); 5] = [
+                    ("A,B", vec![a.clone(), b.clone()]),
+                    ("B,A", vec![b.clone(), a.clone()]),
+                    ("A,B,B", vec![a.clone(), b.clone(), b.clone()]),
+                    ("B,A,B", vec![b.clone(), a.clone(), b.clone()]),
+                    ("B,B,A", vec![b.clone(), b.clone(), a.clone()]),
+                ];
+                for (shape, list) in shapes {
+                    let want = list_allowed(loc, &list);
+                    let (props, auth_has_method) = with_auth_method(loc, list);
+                    if props.iter().filter(|p| p.id == 21).count() > 1 && matches!(loc, Loc::Auth) {
+                        // the carrier itself would be judged on its method; covered by the single cells
+                        continue;
+                    }
+                    let pkt = carrier(loc, props, auth_has_method);
+                    let cell = format!("A={}({}) B={}({}) in {:?} list [{}]", na, ia, nb, ib, loc, shape);
+                    rep.hit("T4-verdict-independent-of-neighbour-property");
+                    judge(&mut rep, &pkt, &cell, want, &format!("pair;a={};b={};loc={:?};shape={}", ia, ib, loc, shape), case);
+                }
+            }
+        }
+    }
+    // ---- seeded random lists
+    let n = ctx.budget(20_000, 2_000_000);
+    let r2 = run_cases(ctx, 2, n, "random lists", |idx, seed, rep| {
+        let mut rng = Rng::new(seed);
+        let loc = ALL_LOCS[rng.usize(ALL_LOCS.len())];
+        let allowed: Vec<u8> = PROP_TABLE.iter().map(|t| t.0).filter(|i| prop_allowed(*i, loc)).collect();
+        let len = 1 + rng.usize(6);
+        let mut list = Vec::new();
+        for _ in 0..len {
+            // mostly properties of this location, sometimes a stranger, sometimes a repeat of an earlier entry
+            let id = if !list.is_empty() && rng.chance(1, 4) {
+                let q: &Prop = &list[rng.usize(list.len())];
+                q.id
+            } else if !allowed.is_empty() && rng.chance(9, 10) {
+                allowed[rng.usize(allowed.len())]
+            } else {
+                PROP_TABLE[rng.usize(PROP_TABLE.len())].0
+            };
+            let cells = value_cells(id);
+            let val = if rng.chance(9, 10) { legal_value(id) } else { cells[rng.usize(cells.len())].1.clone() };
+            list.push(Prop { id, val });
+        }
+        if list.iter().any(|p| p.id == 21 || p.id == 22) {
+            // cross rule of the authentication pair: judged by the single cells
+            return;
+        }
+        let want = list_allowed(loc, &list);
+        let (props, auth_has_method) = with_auth_method(loc, list.clone());
+        let pkt = carrier(loc, props, auth_has_method);
+        let cell = format!("{:?} list {:?}", loc, list.iter().map(|p| p.id).collect::<Vec<_>>());
+        rep.hit("T5-random-list-verdict-equals-spec-table");
+        let first_bad = list.iter().find(|p| !prop_allowed(p.id, loc) || !prop_value_ok(p) || (!prop_repeatable(p.id, loc) && list.iter().filter(|q| q.id == p.id).count() > 1)).map(|p| p.id).unwrap_or(0);
+        judge(rep, &pkt, &cell, want, &format!("list;loc={:?};first_offender={};len={}", loc, first_bad, list.len()), (2, idx));
+    });
+    rep.merge(r2);
     rep.assumptions.push("the acceptance table (Appendix C of DESIGN.md) is my transcription of MQTT 5.0 Table 2-4 and of the per-property value rules".into());
     rep.assumptions.push("builder cells whose value cannot be expressed through the public constructors (e.g. PayloadFormatIndicator takes an enum) are counted as inexpressible, not judged".into());
     if ctx.replay.is_none() {
-        rep.require_hits(&[("T1-builder-acceptance-equals-spec-table", 700), ("T2-parser-acceptance-equals-spec-table", 700)]);
+        rep.require_hits(&[("T1-builder-acceptance-equals-spec-table", 700), ("T2-parser-acceptance-equals-spec-table", 700), ("T4-verdict-independent-of-neighbour-property", 5_000), ("T5-random-list-verdict-equals-spec-table", 1_000)]);
     }
     rep
 }
